@@ -204,6 +204,13 @@ func YAMLUnmarshalerWithPath(path string) YAMLUnmarshalerOption {
 	}
 }
 
+// YAMLUnmarshalerWithDiscardUnknown says to discard unrecognized fields instead of returning an error.
+func YAMLUnmarshalerWithDiscardUnknown() YAMLUnmarshalerOption {
+	return func(yamlUnmarshaler *yamlUnmarshaler) {
+		yamlUnmarshaler.discardUnknown = true
+	}
+}
+
 func YAMLUnmarshalerWithValidator(validator protoyaml.Validator) YAMLUnmarshalerOption {
 	return func(yamlUnmarshaler *yamlUnmarshaler) {
 		yamlUnmarshaler.validator = validator
